@@ -363,6 +363,29 @@ def strip_imports(text):
                    if l and not l.strip().startswith("%import"))
 
 
+def harmless_alpha_override(w, text):
+    """'<type>/alpha=42' for the first top-level section type of the text
+    that has the key 'alpha' (None if there is none)."""
+    events, out, _ = refparse.parse(text)
+    if out[0] != "ok":
+        return None, False
+    res = w.resolved_with([n for n, _ in w.components])
+    imported_types = set(t["name"] for _, ts in w.components for t in ts)
+    found = None
+    for e in events:
+        if e[0] == "open" and e[2] == 0:
+            cont = res.types.get(e[3])
+            if cont not in (None, "abstract") and any(
+                    c["name"] == "alpha" for c in cont.children):
+                if e[3] not in imported_types:
+                    # a type the application schema has itself
+                    return "%s/alpha=42" % e[3], False
+                found = found or e[3]
+    if found:
+        return "%s/alpha=42" % found, True
+    return None, False
+
+
 def run_world(ctx, w, hook, rng):
     res = ctx.res
     hook.app_ids = set(id(w.schema.gettype(a)) for a in w.abstracts)
@@ -387,6 +410,19 @@ def run_world(ctx, w, hook, rng):
                     shutil.rmtree(d, ignore_errors=True)
                     obs = load_path(w.schema, lay.write(d))
                     res.count("loads_via_include")
+            if via == "text" and "%import" in text and exp[0] == "accept" \
+                    and rng.random() < 0.35:
+                # the same load with a command-line override that changes
+                # nothing (alpha is 42 wherever it is written, and by
+                # default): imported types must be known to whatever
+                # handles the override as well
+                spec, spec_imported = harmless_alpha_override(w, text)
+                if spec:
+                    via = "override"
+                    obs = outcome.load_text(w.schema, text, overrides=[spec])
+                    res.count("loads_with_override")
+                    if spec_imported:
+                        res.count("override_addresses_imported_type")
             if via == "text":
                 obs = outcome.load_text(w.schema, text)
             hook.phase = "schema"
@@ -424,10 +460,25 @@ def run_world(ctx, w, hook, rng):
                         bad = ("rejected-with-non-configuration-error",
                                list(exp[:3]), list(obs[:6]))
                 if bad:
+                    mech = None
+                    if via == "override" and spec_imported and \
+                            bad[0] == "refused-although-admitted" and \
+                            "unknown type name" in str(obs[5]) and \
+                            repr(spec.split("/")[0]) in str(obs[5]):
+                        # neutraliser: the same text without the override
+                        plain = outcome.load_text(w.schema, text)
+                        if plain[0] == "ok" and plain[1] == exp[1]:
+                            mech = "override-addresses-section-of-" \
+                                   "imported-type"
+                    if via == "override":
+                        case = dict(case, overrides=[spec])
                     res.violate(bad[0], case, bad[1], bad[2],
-                                detail="load %d text=%r exp=%s" % (
-                                    li, text, str(exp[:3])[:150]),
-                                vsig="%s|%s" % (bad[0], kinds[:6]))
+                                detail="load %d text=%r exp=%s%s" % (
+                                    li, text, str(exp[:3])[:150],
+                                    " overrides=%r" % [spec]
+                                    if via == "override" else ""),
+                                mechanism=mech,
+                                vsig="%s|%s|%s" % (bad[0], kinds[:6], mech))
             # implementer tables of the application schema
             if hook.events or before != after:
                 mech = None
